@@ -430,4 +430,117 @@ Section QueryOk.
              split; [rewrite Hkof; exact Hc|].
              apply Hmems. rewrite Hc. rewrite <- Eq. split; [exact Hs|]. split; [exact Hf|exact Hgne].
   Qed.
+
+  (* ---------------- successor / predecessor node lists ---------------- *)
+  Lemma nodes_by_index_ok (g : gstate) site : forall js,
+    WF g -> (forall j, In j js -> j < nn g) ->
+    exists l, nodes_by_index g site js = Ok l /\
+              map (fun n => Some (nname n)) l = map (name_at g) js.
+  Proof.
+    induction js as [|j js IH]; intros W Hlt; simpl.
+    - exists []. auto.
+    - assert (Hj : j < nn g) by (apply Hlt; left; reflexivity).
+      unfold get_node_by_index. rewrite (wf_nrev _ _ _ W).
+      destruct (nth_error (nodes_vec g) j) as [n|] eqn:En.
+      + destruct (IH W (fun k Hk => Hlt k (or_intror Hk))) as (l & Hl & Hm). rewrite Hl. simpl.
+        exists (n :: l). split; [reflexivity|]. simpl. rewrite Hm. f_equal.
+        unfold WFDefs.name_at, WFDefs.names. rewrite nth_error_map, En. reflexivity.
+      + exfalso. apply nth_error_None in En. unfold WFDefs.nn in Hj. rewrite names_length in Hj. lia.
+  Qed.
+
+  Theorem get_successor_nodes_spec (g : gstate) x :
+    WF g -> directed (sp g) = true -> In x (names g) ->
+    exists l, get_successor_nodes teqb g x = Ok l /\ NoDup (map nname l) /\
+              forall y, In y (map nname l) <-> group g (x, y) <> None.
+  Proof.
+    intros W Hd Hx. unfold get_successor_nodes, idx_set_nodes. rewrite Hd. simpl.
+    assert (Hc : contains_key teqb x (nodes_map g) = true) by (apply (contains_key_names g x W); exact Hx).
+    rewrite Hc. simpl.
+    apply In_nth_error in Hx. destruct Hx as (i & Hi). change (name_at g i = Some x) in Hi.
+    unfold get_node_index. rewrite (proj2 (wf_nmap _ _ _ W x i) Hi).
+    assert (Hilt : i < nn g) by (unfold WFDefs.nn; apply nth_error_Some; unfold WFDefs.name_at in Hi; congruence).
+    destruct (wf_sm _ _ _ W i Hilt) as (js & Hjs & Hnd & Hmem). rewrite Hjs.
+    assert (Hlt : forall j, In j js -> j < nn g).
+    { intros j Hj. apply Hmem in Hj. unfold WFDefs.grp_of in Hj. rewrite Hi in Hj.
+      destruct (name_at g j) eqn:E; [|congruence].
+      unfold WFDefs.nn. apply nth_error_Some. unfold WFDefs.name_at in E. congruence. }
+    destruct (nodes_by_index_ok g "query.rs:get_node_by_index unwrap" js W Hlt) as (l & Hl & Hm).
+    exists l. split; [exact Hl|].
+    assert (Hnames : forall y, In y (map nname l) <-> exists j, In j js /\ name_at g j = Some y).
+    { intros y. split.
+      - intros Hy. assert (In (Some y) (map (fun n => Some (nname n)) l)).
+        { apply in_map_iff in Hy. destruct Hy as (n & <- & Hn). apply in_map_iff. exists n. auto. }
+        rewrite Hm in H. apply in_map_iff in H. destruct H as (j & Ej & Hj). eauto.
+      - intros (j & Hj & Ej). assert (In (Some y) (map (name_at g) js)) by (rewrite <- Ej; apply in_map; exact Hj).
+        rewrite <- Hm in H. apply in_map_iff in H. destruct H as (n & En & Hn). inversion En. subst.
+        apply in_map. exact Hn. }
+    split.
+    - (* distinct indices have distinct names *)
+      assert (Hinj : NoDup (map (name_at g) js)).
+      { apply NoDup_map_inj; [|exact Hnd]. intros a b Ha Hb E.
+        destruct (name_at g a) as [ya|] eqn:Ea.
+        - symmetry in E. eapply (name_at_inj teqb tltb); eauto.
+        - apply Hlt in Ha. unfold WFDefs.nn in Ha. apply nth_error_Some in Ha. unfold WFDefs.name_at in Ea. congruence. }
+      rewrite <- Hm in Hinj. clear -Hinj.
+      induction l as [|n l IH]; simpl in *; [constructor|]. inversion Hinj as [|? ? Hni Hnd']; subst. constructor.
+      + intros Hin. apply Hni. apply in_map_iff in Hin. destruct Hin as (m & Em & Hm). apply in_map_iff.
+        exists m. split; [rewrite Em; reflexivity|exact Hm].
+      + apply IH. exact Hnd'.
+    - intros y. rewrite Hnames. split.
+      + intros (j & Hj & Ej). apply Hmem in Hj. unfold WFDefs.grp_of in Hj. rewrite Hi, Ej in Hj.
+        rewrite (cn_directed tltb _ _ _ Hd) in Hj. exact Hj.
+      + intros Hg. destruct (group g (x, y)) as [l0|] eqn:Eg; [|congruence].
+        destruct (wf_egroup _ _ _ W _ _ Eg) as (_ & _ & _ & Hs & _). simpl in Hs.
+        apply In_nth_error in Hs. destruct Hs as (j & Hj). exists j. split; [|exact Hj].
+        apply Hmem. unfold WFDefs.grp_of. rewrite Hi. unfold WFDefs.name_at. rewrite Hj.
+        rewrite (cn_directed tltb _ _ _ Hd), Eg. discriminate.
+  Qed.
+
+  Theorem get_predecessor_nodes_spec (g : gstate) x :
+    WF g -> directed (sp g) = true -> In x (names g) ->
+    exists l, get_predecessor_nodes teqb g x = Ok l /\ NoDup (map nname l) /\
+              forall y, In y (map nname l) <-> group g (y, x) <> None.
+  Proof.
+    intros W Hd Hx. unfold get_predecessor_nodes, idx_set_nodes. rewrite Hd. simpl.
+    assert (Hc : contains_key teqb x (nodes_map g) = true) by (apply (contains_key_names g x W); exact Hx).
+    rewrite Hc. simpl.
+    apply In_nth_error in Hx. destruct Hx as (i & Hi). change (name_at g i = Some x) in Hi.
+    unfold get_node_index. rewrite (proj2 (wf_nmap _ _ _ W x i) Hi).
+    assert (Hilt : i < nn g) by (unfold WFDefs.nn; apply nth_error_Some; unfold WFDefs.name_at in Hi; congruence).
+    destruct (wf_pm _ _ _ W i Hilt) as (js & Hjs & Hnd & Hmem). rewrite Hjs.
+    assert (Hlt : forall j, In j js -> j < nn g).
+    { intros j Hj. apply Hmem in Hj. unfold WFDefs.pred_rel, WFDefs.grp_of in Hj. rewrite Hd, Hi in Hj.
+      destruct (name_at g j) eqn:E; [|congruence].
+      unfold WFDefs.nn. apply nth_error_Some. unfold WFDefs.name_at in E. congruence. }
+    destruct (nodes_by_index_ok g "query.rs:get_node_by_index unwrap" js W Hlt) as (l & Hl & Hm).
+    exists l. split; [exact Hl|].
+    assert (Hnames : forall y, In y (map nname l) <-> exists j, In j js /\ name_at g j = Some y).
+    { intros y. split.
+      - intros Hy. assert (In (Some y) (map (fun n => Some (nname n)) l)).
+        { apply in_map_iff in Hy. destruct Hy as (n & <- & Hn). apply in_map_iff. exists n. auto. }
+        rewrite Hm in H. apply in_map_iff in H. destruct H as (j & Ej & Hj). eauto.
+      - intros (j & Hj & Ej). assert (In (Some y) (map (name_at g) js)) by (rewrite <- Ej; apply in_map; exact Hj).
+        rewrite <- Hm in H. apply in_map_iff in H. destruct H as (n & En & Hn). inversion En. subst.
+        apply in_map. exact Hn. }
+    split.
+    - (* distinct indices have distinct names *)
+      assert (Hinj : NoDup (map (name_at g) js)).
+      { apply NoDup_map_inj; [|exact Hnd]. intros a b Ha Hb E.
+        destruct (name_at g a) as [ya|] eqn:Ea.
+        - symmetry in E. eapply (name_at_inj teqb tltb); eauto.
+        - apply Hlt in Ha. unfold WFDefs.nn in Ha. apply nth_error_Some in Ha. unfold WFDefs.name_at in Ea. congruence. }
+      rewrite <- Hm in Hinj. clear -Hinj.
+      induction l as [|n l IH]; simpl in *; [constructor|]. inversion Hinj as [|? ? Hni Hnd']; subst. constructor.
+      + intros Hin. apply Hni. apply in_map_iff in Hin. destruct Hin as (m & Em & Hm). apply in_map_iff.
+        exists m. split; [rewrite Em; reflexivity|exact Hm].
+      + apply IH. exact Hnd'.
+    - intros y. rewrite Hnames. split.
+      + intros (j & Hj & Ej). apply Hmem in Hj. unfold WFDefs.pred_rel, WFDefs.grp_of in Hj. rewrite Hd, Hi, Ej in Hj.
+        rewrite (cn_directed tltb _ _ _ Hd) in Hj. exact Hj.
+      + intros Hg. destruct (group g (y, x)) as [l0|] eqn:Eg; [|congruence].
+        destruct (wf_egroup _ _ _ W _ _ Eg) as (_ & _ & Hs & _ & _). simpl in Hs.
+        apply In_nth_error in Hs. destruct Hs as (j & Hj). exists j. split; [|exact Hj].
+        apply Hmem. unfold WFDefs.pred_rel, WFDefs.grp_of. rewrite Hd, Hi. unfold WFDefs.name_at. rewrite Hj.
+        rewrite (cn_directed tltb _ _ _ Hd), Eg. discriminate.
+  Qed.
 End QueryOk.
